@@ -26,13 +26,15 @@ def units(tier):
         lines = _lines(p)
         n = len(lines)
         f08 = G.is_f08(p)
-        runs = [(a, b) for a in range(1, n) for b in range(a + 1, n + 1) if b - a <= 3]
+        runs = [(a, b) for a in range(1, n) for b in range(a + 1, n + 1) if b - a <= 5]
         if q:
-            runs = runs[::max(1, len(runs) // 3)]
+            runs = runs[::max(1, len(runs) // 6)]
         for (a, b) in runs:
             rot += 1
             where = ("first", "second", "both", "absent")[rot % 4]
-            nested = (rot % 5 == 0) and b - a >= 2
+            nested = 0
+            if b - a >= 3:
+                nested = (1, 2, 0)[rot % 3] if b - a >= 4 else (1, 0)[rot % 2]
             us.append(dict(h="inc_prog", prog=p, a=a, b=b, where=where, nested=nested, kind="string" if rot % 2 else "file",
                            std="f2008" if (f08 or rot % 2) else "f2003", ic=bool(rot % 3), cost=2))
     return us
@@ -69,14 +71,28 @@ def inc_prog(ctx):
     fname = stem + ".inc"
     moved = lines[a:b]
     tag = ""
-    if moved[0].strip()[:1].isdigit() or (p["nested"] and moved[-1].strip()[:1].isdigit()):
-        tag = " [include file starts with a statement label: detected as fixed form]"
-    if p["nested"]:
-        inner = "  " + moved[-1].strip() + "\n"
-        body = "\n".join(["  " + l.strip() for l in moved[:-1]]) + "\n" + "  include 'inner.inc'\n"
+    def text(ls):
+        return "\n".join(["  " + l.strip() for l in ls]) + "\n"
+
+    nested = p["nested"]
+    inner = None
+    deep = None
+    firsts = [moved[0]]
+    if nested == 0:
+        body = text(moved)
+    elif nested == 1:
+        # outer file: first statement + include of the rest (>= 2 statements)
+        body = text(moved[:1]) + "  include 'inner.inc'\n"
+        inner = text(moved[1:])
+        firsts.append(moved[1])
     else:
-        inner = None
-        body = "\n".join(["  " + l.strip() for l in moved]) + "\n"
+        body = text(moved[:1]) + "  include 'inner.inc'\n"
+        inner = text(moved[1:2]) + "  include 'deep.inc'\n"
+        deep = text(moved[2:])
+        firsts += [moved[1], moved[2]]
+    for fl in firsts:
+        if fl.strip()[:1].isdigit():
+            tag = " [include file starts with a statement label: detected as fixed form]"
     decoy = "  decoy = 1\n"
     where = p["where"]
     if where == "first":
@@ -87,7 +103,13 @@ def inc_prog(ctx):
         api.put_file(d1 + "/" + fname, body)
         api.put_file(d2 + "/" + fname, decoy)
     if inner is not None and where != "absent":
-        api.put_file(d2 + "/inner.inc", inner)
+        # the inner file is in the first directory; a decoy of the same name sits next to the outer
+        # file when that one lives in the second directory (first directory in order must win)
+        api.put_file(d1 + "/inner.inc", inner)
+        if where == "second":
+            api.put_file(d2 + "/inner.inc", decoy)
+        if deep is not None:
+            api.put_file(d2 + "/deep.inc", deep)
     main = lines[:a] + [_inc_line(ctx, fname, True)] + lines[b:]
     src = "\n".join(main) + "\n"
     ctx.observe("main", src)
@@ -112,8 +134,9 @@ def inc_prog(ctx):
         if r1[0] == "ok":
             ctx.check(C.same_shape(C.shape(r0[1]), C.shape(r1[1])), "resolved INCLUDE changes the parse tree" + tag)
     else:
-        if r1[0] != "ok":
-            # the source need not be valid with the line in place (e.g. an END moved away)
+        unit_kw = ("program", "subroutine", "function", "module", "submodule", "block", "end", "contains", "integer")
+        if r1[0] != "ok" or [l for l in moved if l.strip().split(" ")[0] in unit_kw]:
+            # the source need not be valid with the line in place (an END / unit statement moved away)
             ctx.check(True, "not applicable")
             return
         incs = walk(r1[1], F.Include_Stmt)
